@@ -366,3 +366,5 @@ import checks_auth  # noqa: E402,F401
 import checks_proxy  # noqa: E402,F401
 import checks_life  # noqa: E402,F401
 import checks_loss  # noqa: E402,F401
+import checks_http  # noqa: E402,F401
+import checks_ws  # noqa: E402,F401
